@@ -13,6 +13,8 @@ pub trait Elem: MaybeNan + Clone + 'static {
     fn from_id(id: i64) -> Self;
     fn to_id(&self) -> i64;
     fn nn_to_id(x: &Self::NotNan) -> i64;
+    /// from_not_nan applied to a copy of a typed reference
+    fn nn_back(x: &Self::NotNan) -> Self;
 }
 
 macro_rules! elem_float {
@@ -22,7 +24,8 @@ macro_rules! elem_float {
             // identities 2 and 5 are the infinities (valid, non-missing values at the extremes of the type)
             fn from_id(id: i64) -> Self { if id == 0 { <$t as AnyNan>::any_nan() } else if id == 2 { <$t>::INFINITY } else if id == 5 { <$t>::NEG_INFINITY } else { id as $t } }
             fn to_id(&self) -> i64 { if <$t>::is_nan(*self) { 0 } else if *self == <$t>::INFINITY { 2 } else if *self == <$t>::NEG_INFINITY { 5 } else { *self as i64 } }
-            fn nn_to_id(x: &Self::NotNan) -> i64 { x.raw() as i64 }
+            fn nn_to_id(x: &Self::NotNan) -> i64 { let v = x.raw(); if v == <$t>::INFINITY { 2 } else if v == <$t>::NEG_INFINITY { 5 } else { v as i64 } }
+            fn nn_back(x: &Self::NotNan) -> Self { <$t as MaybeNan>::from_not_nan(*x) }
         }
     };
 }
@@ -36,6 +39,7 @@ macro_rules! elem_opt_int {
             fn from_id(id: i64) -> Self { if id == 0 { None } else { Some(id as $t) } }
             fn to_id(&self) -> i64 { match self { None => 0, Some(v) => *v as i64 } }
             fn nn_to_id(x: &Self::NotNan) -> i64 { x.clone().unwrap() as i64 }
+            fn nn_back(x: &Self::NotNan) -> Self { <Option<$t> as MaybeNan>::from_not_nan(x.clone()) }
         }
     };
 }
@@ -55,12 +59,14 @@ impl Elem for Option<N32> {
     fn from_id(id: i64) -> Self { if id == 0 { None } else { Some(n32(id as f32)) } }
     fn to_id(&self) -> i64 { match self { None => 0, Some(v) => v.raw() as i64 } }
     fn nn_to_id(x: &Self::NotNan) -> i64 { x.clone().unwrap().raw() as i64 }
+    fn nn_back(x: &Self::NotNan) -> Self { <Option<N32> as MaybeNan>::from_not_nan(x.clone()) }
 }
 impl Elem for Option<N64> {
     const NAME: &'static str = "opt_n64";
     fn from_id(id: i64) -> Self { if id == 0 { None } else { Some(n64(id as f64)) } }
     fn to_id(&self) -> i64 { match self { None => 0, Some(v) => v.raw() as i64 } }
     fn nn_to_id(x: &Self::NotNan) -> i64 { x.clone().unwrap().raw() as i64 }
+    fn nn_back(x: &Self::NotNan) -> Self { <Option<N64> as MaybeNan>::from_not_nan(x.clone()) }
 }
 
 pub const ALL_TYPES: &[&str] = &["f32", "f64", "opt_u8", "opt_u16", "opt_u32", "opt_u64", "opt_u128", "opt_i8", "opt_i16",
@@ -133,6 +139,16 @@ fn remove_nan_1d<T: Elem>(case: &Value, out: &mut Vec<Value>) {
     let base = st.parent.as_ptr();
     let vin = { let v = st.view_mut(); view1_json(base, &v) };
     let mem0 = ids(st.parent.as_slice().unwrap());
+    // the typed-reference accessors on every cell of the buffer: the library's is_nan, try_as_not_nan (identity of the value
+    // handed out, 0 for none) and the round trip through from_not_nan
+    let probe = guarded(|| {
+        let cells = st.parent.as_slice().unwrap();
+        let isn: Vec<bool> = cells.iter().map(|x| MaybeNan::is_nan(x)).collect();
+        let tnn: Vec<i64> = cells.iter().map(|x| match x.try_as_not_nan() { Some(v) => T::nn_to_id(v), None => 0 }).collect();
+        let back: Vec<i64> = cells.iter().map(|x| match x.try_as_not_nan() { Some(v) => T::nn_back(v).to_id(), None => 0 }).collect();
+        (isn, tnn, back)
+    });
+    let (isn, tnn, back) = probe.unwrap_or((vec![], vec![], vec![]));
     let r1 = guarded(|| { let v = T::remove_nan_mut(st.view_mut());
         view1_geom(base, v.as_ptr() as *const T, v.len(), v.strides()[0]) });
     let mem1 = ids(st.parent.as_slice().unwrap());
@@ -142,6 +158,7 @@ fn remove_nan_1d<T: Elem>(case: &Value, out: &mut Vec<Value>) {
     let none = json!({"ptr": 0, "len": 0, "stride": 0});
     out.push(json!({"ev": "remove_nan", "ty": T::NAME, "kind": if T::NAME.starts_with("opt") {"option"} else {"float"},
         "out": if r1.is_ok() && r2.is_ok() {"ok"} else {"panic"},
+        "isnan": isn, "tnn": tnn, "back": back,
         "mem0": mem0, "vin": vin, "mem1": mem1, "vout": r1.unwrap_or(none.clone()), "mem2": mem2, "vout2": r2.unwrap_or(none)}));
 }
 
